@@ -57,11 +57,20 @@ func panicKey(msg string) string {
 		return "slice-bounds-panic"
 	}
 	k := strings.ToLower(msg)
+	k = strings.Map(func(r rune) rune { // one class per panic site, whatever the indices
+		if r >= '0' && r <= '9' {
+			return '#'
+		}
+		return r
+	}, k)
+	for strings.Contains(k, "##") {
+		k = strings.ReplaceAll(k, "##", "#")
+	}
 	if len(k) > 46 {
 		k = k[:46]
 	}
 	return "panic-" + strings.Map(func(r rune) rune {
-		if (r >= 'a' && r <= 'z') || (r >= '0' && r <= '9') {
+		if (r >= 'a' && r <= 'z') || (r >= '0' && r <= '9') || r == '#' {
 			return r
 		}
 		return '-'
@@ -339,6 +348,9 @@ func searchMain(a map[string]string) {
 	// deterministic small-scope families first, random programs afterwards (hardening class 8)
 	arityFamily(hx.ArgInt(a, "arity", 1) > 1, hx.SeedFromEnv(), func(ctx string, s spec) {
 		runSpec("arity-"+ctx, s)
+	})
+	jumpFamilies(hx.ArgInt(a, "arity", 1) > 1, hx.SeedFromEnv(), func(name string, s spec) {
+		runSpec(name, s)
 	})
 	// the two hard limits, tested directly
 	for _, cfg := range []int{32, 1 | 2 | 8 | 32, 63} {
